@@ -9,10 +9,16 @@ structure DispatchState where
   node : Option Node
   dkgWedged : Bool
   bphase : Option BPhase
+  /-- ops served by the current DKG instance / beacon instance (the request probes run after every op whose outcome is
+  not a plain error and after every 4th op; the lock probe after every op) -/
+  dkgOps : Nat
+  bOps : Nat
   deriving Repr
 
 def dispatchInit : DispatchState :=
-  { cfg := { echoNonBlocking := false, echoCap := 3 }, node := none, dkgWedged := false, bphase := none }
+  { cfg := { echoNonBlocking := false, echoCap := 3 }, node := none, dkgWedged := false, bphase := none, dkgOps := 0, bOps := 0 }
+
+def probeEvery : Nat := 4
 
 def parsePhase : String → Option Phase
   | "fresh" => some .fresh | "proposed" => some .proposed | "joined" => some .joined | "executing" => some .executing
@@ -130,8 +136,9 @@ def showLock (n : Node) : String := if n.wedged then "held" else "free"
 
 /-- run a request and the three probes on the model; the probes go through the same layer, except that DKGStatus
 is not served on the peer-facing listener and is probed through the daemon layer -/
-def dkgStep (cfg : Cfg) (n : Node) (l : Layer) (r : DkgReq) : Node × String :=
+def dkgStep (cfg : Cfg) (n : Node) (l : Layer) (r : DkgReq) (k : Nat) : Node × String :=
   let (n1, o) := handle cfg l n r
+  if o = .err && k % probeEvery ≠ 0 && !n1.wedged then (n1, s!"{o.show} lock=free st=- pk=- bc=-") else
   let pl := if l = .grpc then Layer.daemon else l
   let (n2, st) := handle cfg pl n1 probeStatus
   let (n3, pk) := handle cfg l n2 probePacket
@@ -219,8 +226,9 @@ def parseBReq (f : List String) : Option (BLayer × BReq) :=
       | none => none
   | _ => none
 
-def bStep (ph : BPhase) (l : BLayer) (r : BReq) : String :=
+def bStep (ph : BPhase) (l : BLayer) (r : BReq) (k : Nat) : String :=
   let o := bHandle l ph r
+  if o = .err && k % probeEvery ≠ 0 then s!"{o.show} bplock=free hlock=free ci=- pb=-" else
   let pl := if l = .direct then BLayer.bp else l
   let ci := bHandle pl ph probeChainInfo
   let pb := bHandle pl ph probePartial
@@ -232,11 +240,11 @@ def dispatchStep (s : DispatchState) (f : List String) : DispatchState × String
   match f with
   | ["phase", p] =>
     match parsePhase p with
-    | some p => ({ s with node := some (Node.init p), dkgWedged := false }, "ok")
+    | some p => ({ s with node := some (Node.init p), dkgWedged := false, dkgOps := 0 }, "ok")
     | none => (s, "bad-op")
   | ["bphase", p] =>
     match parseBPhase p with
-    | some p => ({ s with bphase := some p }, "ok")
+    | some p => ({ s with bphase := some p, bOps := 0 }, "ok")
     | none => (s, "bad-op")
   | _ =>
     match parseDkgReq f with
@@ -245,15 +253,16 @@ def dispatchStep (s : DispatchState) (f : List String) : DispatchState × String
       | none => (s, "bad-op no phase")
       | some n =>
         if s.dkgWedged then (s, "wedged") else
-        let (n', out) := dkgStep s.cfg n l r
-        ({ s with node := some n', dkgWedged := hasHang out }, out)
+        let (n', out) := dkgStep s.cfg n l r (s.dkgOps + 1)
+        ({ s with node := some n', dkgWedged := hasHang out, dkgOps := s.dkgOps + 1 }, out)
     | none =>
       match parseBReq f with
       | some (l, r) =>
         match s.bphase with
         | none => (s, "bad-op no bphase")
         | some ph =>
-          if l = .direct && ph ≠ .running then (s, "bad-op no handler in this phase") else (s, bStep ph l r)
+          if l = .direct && ph ≠ .running then (s, "bad-op no handler in this phase")
+          else ({ s with bOps := s.bOps + 1 }, bStep ph l r (s.bOps + 1))
       | none => (s, "bad-op")
 
 end Drand.Driver
